@@ -6,6 +6,5 @@ Init == /\ c \in UNION {[1..n -> 0..2] : n \in 1..8}
 Next == UNCHANGED <<c, q, v>>
 Spec == Init /\ [][Next]_<<c, q, v>>
 Lt(a, b) == a < b
-Equivalent == /\ AllWindowsOnePass(c, q, v, Lt) <=> AllWindowsPlain(c, q, v, Lt)
-              /\ AllWindowsByLast(c, q, v, Lt) <=> AllWindowsPlain(c, q, v, Lt)
+Equivalent == AllWindowsByLast(c, q, v, Lt) <=> AllWindowsPlain(c, q, v, Lt)
 =============================================================================
